@@ -456,6 +456,12 @@ class J1939_22:
                             self.__send_tp_dt(buf['src_address'], buf['dest_address'], buf['session'], package+1, buf['data'][package])
                             if send_eom_status:
                                 self.__send_tp_eom_status(buf['src_address'], buf['dest_address'], buf['session'], buf['message_size'], buf['num_segments'], buf['pgn'])
+                            if self._minimum_tp_rts_cts_dt_interval != None:
+                                # the interval to the next segment counts from the end of the write
+                                # (the time a slow interface takes must not be taken out of it)
+                                buf['last_dt_time'] = time.time()
+                                if buf['state'] == self.SendBufferState.SENDING_RTS_CTS:
+                                    buf['deadline'] = max(buf['deadline'], buf['last_dt_time'] + self._minimum_tp_rts_cts_dt_interval)
                             if should_break:
                                 break
 
